@@ -2,7 +2,6 @@ package cdrConvert
 
 import (
 	"encoding/hex"
-	"strings"
 	"time"
 
 	"github.com/free5gc/chf/cdr/asn"
@@ -107,12 +106,13 @@ func PlmnIdToCdr(modelsPlmnid models.PlmnId) cdrType.PLMNId {
 		// not 3 + 2/3 digits: no PLMN identity can be built
 		return cdrType.PLMNId{}
 	}
-	mcc := strings.Split(modelsPlmnid.Mcc, "")
-	mnc := strings.Split(modelsPlmnid.Mnc, "")
-	if len(modelsPlmnid.Mnc) == 2 {
-		hexString = mcc[1] + mcc[0] + "f" + mcc[2] + mnc[1] + mnc[0]
+	// digit by octet, as the lengths above are counted (a multi-byte character is not a digit anyway)
+	mcc := modelsPlmnid.Mcc
+	mnc := modelsPlmnid.Mnc
+	if len(mnc) == 2 {
+		hexString = string([]byte{mcc[1], mcc[0], 'f', mcc[2], mnc[1], mnc[0]})
 	} else {
-		hexString = mcc[1] + mcc[0] + mnc[0] + mcc[2] + mnc[2] + mnc[1]
+		hexString = string([]byte{mcc[1], mcc[0], mnc[0], mcc[2], mnc[2], mnc[1]})
 	}
 
 	var cdrPlmnId cdrType.PLMNId
